@@ -611,9 +611,6 @@ def rb_dbits(x):
 
 def prepare(tier):
     from ..oracles import c03_kepler_mp as KM
-    # thorough jobs legitimately run for more than the runner's 400 s "dump a traceback" watchdog; that dump walks
-    # the interpreter's frames from another thread and has crashed long jobs (SIGSEGV in libpython): push it out
-    os.environ.setdefault("VERIF_DUMP_AFTER", "100000")
     w = KM.selftest()
     if not w < 1e-50:
         raise RuntimeError("C03 oracle self-test failed: %g" % w)
@@ -622,7 +619,7 @@ def prepare(tier):
 def subs(tier):
     return [
         Sub("direct", run_direct, strategy=orbit, quick=3200, thorough=120000, shards_quick=8, shards_thorough=16),
-        Sub("terminates", run_terminates, strategy=orbit, quick=8000, thorough=400000, shards_quick=8,
+        Sub("terminates", run_terminates, strategy=orbit, quick=8000, thorough=200000, shards_quick=8,
             shards_thorough=16),
         Sub("step", run_step, strategy=step_case([k for k in SCHEMES if k != "whfast512"], G_CHOICES),
             quick=1200, thorough=40000, shards_quick=8, shards_thorough=16),
